@@ -55,8 +55,10 @@ RULE = ('unit: format_date/luis_date on all 73,049 dates 1900..2099 + out-of-ran
         'month-name layouts and asked of the pipeline')
 ASSUMPTIONS = ['English, es-es, es-mx, fr-fr, pt-br, de-de: text -> groups is modelled and proved (Props/C06Front, C06Front<Cul>: '
                'parse_basic_regex_match on the regenerated date regexes of the culture, every contract layout x every date 1900-2099; regex '
-               'engine = backtracking matcher validated against `regex` by lib/datefrontcorr); it-it, nl-nl (some date regexes outside the '
-               'translator) and zh-cn: group values are inputs of the model; the date EXTRACTOR is not modelled (pipeline level only)',
+               'engine = backtracking matcher validated against `regex` by lib/datefrontcorr); it-it, nl-nl: the same front-end model on their '
+               'regenerated regexes is compared with the implementation (unit + layout x date grid) but not proved (kernel evaluation of '
+               'their look-behind-heavy regexes exceeds the build budget), zh-cn: group values are inputs of the model; the date EXTRACTOR '
+               'is not modelled (pipeline level only)',
                'get_year_from_text (written-out years) enters the model as a parameter',
                'ChineseDateParser.match_to_date is modelled (unit correspondence on ~6k real matches); its 汉字-year conversion '
                '(convert_chinese_year_to_number, which runs the number recogniser) is an input of the model',
